@@ -1,8 +1,5 @@
 // ---- spec/pp_view.rs : views of the real Pp runtime types (pp/mod.rs) onto spec/pp.rs
 
-/// TagState is opaque outside unit U6; its abstract value
-pub uninterp spec fn tsv(t: &TagState) -> TagV;
-
 pub open spec fn paths_v(v: Seq<AbsPath>) -> Seq<PathV> {
     v.map_values(|a: AbsPath| a.pv())
 }
